@@ -25,6 +25,38 @@ type c09cfg struct {
 	server  string
 	readers [][]string
 	later   []string // operations of one more reader that starts after all others finished
+	seq     bool     // readers run one after the other (reach partially cached states)
+	slow    bool     // the reply of the first read of k is withheld for 10ms; the other readers start once it is on the wire
+}
+
+// c09queuedMGet reports whether the transaction queued on s contains an MGET (the partial re-fetch of a cached MGET).
+func c09queuedMGet(s *simredis.Session) bool {
+	for i := len(s.Received) - 1; i >= 0; i-- {
+		up := strings.ToUpper(s.Received[i][0])
+		if up == "MULTI" {
+			return false
+		}
+		if up == "MGET" {
+			return true
+		}
+	}
+	return false
+}
+
+// c09store counts Set calls per cached key so that the oracle can tell whether an earlier flight had already
+// been completed (its reply stored) when the server executed another read of the same command.
+type c09store struct {
+	c06map
+	sets map[string]int
+}
+
+func (c *c09store) Set(k string, v RedisMessage) {
+	if strings.HasPrefix(k, "k2") {
+		c.sets["k2"]++
+	} else {
+		c.sets["k"]++
+	}
+	c.c06map.Set(k, v)
 }
 
 type c09obs struct {
@@ -37,6 +69,9 @@ type c09obs struct {
 func c09body(c c09cfg) func(x *vsched.Exec) {
 	return func(x *vsched.Exec) {
 		aborted := false
+		firstSent := false
+		var store *c09store
+		overlap := ""
 		e := vwNew(func(o *ClientOption, srv *simredis.Server, n *simnet.Net) {
 			srv.Do("SET", "k", "v1")
 			srv.Do("SET", "k2", "w1")
@@ -46,13 +81,49 @@ func c09body(c c09cfg) func(x *vsched.Exec) {
 			}
 			if c.mode == "adapter" {
 				o.NewCacheStoreFn = func(CacheStoreOption) CacheStore {
-					return NewSimpleCacheAdapter(&c06map{m: map[string]RedisMessage{}})
+					store = &c09store{c06map: c06map{m: map[string]RedisMessage{}}, sets: map[string]int{}}
+					return NewSimpleCacheAdapter(store)
+				}
+				if c.server == "ok" {
+					// the adapter looks the store up under a read lock and creates the flight under a write lock taken
+					// afterwards: a caller that looked before a flight existed may create its own once that flight has
+					// completed. Such a request is not concurrent with the first one; what the property forbids is a read
+					// executed while an earlier read of the same command is still awaiting its reply.
+					srv.AfterExec = func(ss *simredis.Session, argv []string, r simredis.Reply) {
+						if strings.ToUpper(argv[0]) != "EXEC" {
+							return
+						}
+						for _, key := range []string{"k", "k2"} {
+							n := 0
+							for _, l := range srv.Log {
+								up := strings.ToUpper(l.Argv[0])
+								if (up == "GET" && l.Argv[1] == key) || (up == "MGET" && contains(l.Argv[1:], key)) {
+									n++
+								}
+							}
+							if n >= 2 && store.sets[key] < n-1 && overlap == "" {
+								overlap = fmt.Sprintf("read %d of %s executed while only %d earlier replies had been stored", n, key, store.sets[key])
+							}
+						}
+					}
+				}
+			}
+			if c.slow {
+				done := false
+				n.Script = func(cn *simnet.Conn, argv []string) int {
+					if !done && strings.ToUpper(argv[0]) == "EXEC" {
+						done = true
+						firstSent = true
+						vsched.AddTimer(10*time.Millisecond, func() { cn.Release() })
+						return simnet.FaultStall
+					}
+					return simnet.FaultNone
 				}
 			}
 			switch c.server {
 			case "abort":
 				srv.Hook = func(s *simredis.Session, argv []string) *simredis.Reply {
-					if strings.ToUpper(argv[0]) == "EXEC" && !aborted {
+					if strings.ToUpper(argv[0]) == "EXEC" && !aborted && (!c.seq || c09queuedMGet(s)) {
 						aborted = true
 						// behave like a WATCH abort: discard the queue and answer nil
 						srv.AbortTxn(s)
@@ -102,6 +173,13 @@ func c09body(c c09cfg) func(x *vsched.Exec) {
 				for _, r := range e.client.DoMultiCache(context.Background(), CT(b.Get().Key("k").Cache(), time.Hour), CT(b.Get().Key("k2").Cache(), time.Hour)) {
 					add(r)
 				}
+			case "mgetc":
+				arr, err := e.client.DoCache(cctx, b.Mget().Key("k", "k2").Cache(), time.Hour).ToArray()
+				o.err = err
+				for i := range arr {
+					s, _ := arr[i].ToString()
+					o.vals = append(o.vals, s)
+				}
 			case "mget":
 				arr, err := e.client.DoCache(context.Background(), b.Mget().Key("k", "k2").Cache(), time.Hour).ToArray()
 				o.err = err
@@ -127,17 +205,28 @@ func c09body(c c09cfg) func(x *vsched.Exec) {
 		for ri, ops := range c.readers {
 			ri, ops := ri, ops
 			for _, op := range ops {
-				if op == "getc" {
+				if op == "getc" || op == "mgetc" {
 					needCancel = true
 				}
 			}
 			vsched.GoNamed(fmt.Sprintf("r%d", ri), func() {
 				defer func() { finished++ }()
+				if c.seq && ri > 0 {
+					vsched.Point("gate-seq", func() bool { return finished >= ri })
+				}
+				if c.slow && ri > 0 {
+					vsched.Point("gate-slow", func() bool { return firstSent })
+				}
 				run(fmt.Sprintf("r%d", ri), ops)
 			})
 		}
 		if needCancel {
-			vsched.GoNamed("canceller", func() { cancel() })
+			vsched.GoNamed("canceller", func() {
+				if c.slow {
+					vsched.Point("gate-slow", func() bool { return firstSent })
+				}
+				cancel()
+			})
 		}
 		if len(c.later) > 0 {
 			vsched.GoNamed("later", func() {
@@ -186,9 +275,25 @@ func c09body(c c09cfg) func(x *vsched.Exec) {
 			}
 		}
 		x.Outcome = fmt.Sprintf("%s reads(k)=%d reads(k2)=%d", strings.Join(out, " "), reads("k"), reads("k2"))
+		if c.slow {
+			for _, o := range obs {
+				if (o.op == "get") && o.err != nil {
+					x.Fail("waiter of a flight that was never abandoned did not get its reply", "%s %s: %v; the read of k is owned by a call with a background context; %v", o.who, o.op, o.err, out)
+				}
+			}
+		}
+		if c.seq && (c.server == "abort") {
+			for _, o := range obs {
+				if o.who == "later" && o.err != nil {
+					x.Fail("a later call did not recover after a failed flight", "%s %s: %v; %v", o.who, o.op, o.err, out)
+				}
+			}
+		}
 		switch c.server {
 		case "ok":
-			if needCancel {
+			if needCancel && c.slow {
+				// covered above
+			} else if needCancel {
 				// an abandoned owner ends the generation for everybody who had not joined it yet: at most one read per caller,
 				// and callers other than the cancelled one must succeed or report the owner's context error
 				if reads("k") > firstPhaseK+nLaterK {
@@ -200,8 +305,13 @@ func c09body(c c09cfg) func(x *vsched.Exec) {
 					}
 				}
 			} else {
-				if reads("k") > 1 || reads("k2") > 1 {
-					x.Fail("concurrent cache misses sent more than one request", "server executed %d reads of k and %d of k2 for one flight generation; %v", reads("k"), reads("k2"), out)
+				if c.mode == "adapter" && overlap == "" {
+					// sequential re-fetches after a completed flight (see the setup comment); bounded by one per caller
+					if reads("k") > firstPhaseK+nLaterK {
+						x.Fail("more server reads than cached read calls", "reads(k)=%d calls=%d; %v", reads("k"), firstPhaseK+nLaterK, out)
+					}
+				} else if reads("k") > 1 || reads("k2") > 1 {
+					x.Fail("concurrent cache misses sent more than one request", "server executed %d reads of k and %d of k2 for one flight generation; %s; %v", reads("k"), reads("k2"), overlap, out)
 				}
 				if errs != 0 {
 					x.Fail("cached read failed although the server answered", "%v", out)
@@ -241,6 +351,9 @@ func TestVerif_C09(t *testing.T) {
 			{name: "lru/abort/mget|get+later", mode: "lru", server: "abort", readers: [][]string{{"mget"}, {"get"}}, later: []string{"get"}},
 			{name: "lru/drop/get|get+later", mode: "lru", server: "drop", readers: [][]string{{"get"}, {"get"}}, later: []string{"get"}},
 			{name: "adapter/drop/multi|get+later", mode: "adapter", server: "drop", readers: [][]string{{"multi"}, {"get"}}, later: []string{"get"}},
+			{name: "lru/abort/seq/get,mget+later(get2)", mode: "lru", server: "abort", readers: [][]string{{"get"}, {"mget"}}, later: []string{"get2", "get"}, seq: true},
+			{name: "adapter/abort/seq/get,mget+later(get2)", mode: "adapter", server: "abort", readers: [][]string{{"get"}, {"mget"}}, later: []string{"get2", "get"}, seq: true},
+			{name: "lru/slow/get|get|mgetc", mode: "lru", server: "ok", readers: [][]string{{"get"}, {"get"}, {"mgetc"}}, slow: true},
 			{name: "lru/ok/getc|get+later", mode: "lru", server: "ok", readers: [][]string{{"getc"}, {"get"}}, later: []string{"get"}},
 			{name: "adapter/ok/getc|get+later", mode: "adapter", server: "ok", readers: [][]string{{"getc"}, {"get"}}, later: []string{"get"}},
 		}
